@@ -17,6 +17,7 @@ CONSTANTS
   FinalReset = TRUE
   CompRebases = FALSE
   MaxUser = 0
+  CompSkips = FALSE
 INVARIANT TypeOK
 INVARIANT RowsTrue
 CHECK_DEADLOCK FALSE
